@@ -18,3 +18,6 @@ def opened_of(impl):
             body = e[1:].lstrip("0123456789")
             out.append(body[:1])
     return ",".join(out)
+
+
+from props.mc_hostile import hostile_variants  # noqa: E402,F401 (C01 hook)
